@@ -58,6 +58,12 @@ class CloneHooks(LineHooks):
             return o
         if cls.name == "FieldArray":
             return Abs(cls, label="new FieldArray", _args=args)
+        if len(args) == 1 and isinstance(args[0], Abs) and not kwargs and \
+                args[0].cls is cls:
+            # X(x) for a container class: a new container over the same
+            # elements
+            return Abs(cls, label="shallow copy of %s" % args[0].label,
+                       __shallow_of__=args[0])
         return super().construct(ev, cls, args, kwargs)
 
     def method(self, ev, base, name, args, kwargs, node):
@@ -206,6 +212,11 @@ def run(ctx):
         got = cdata.get(field) if isinstance(cdata, dict) else None
         shared = got is v and not isinstance(v, (int, float, str, bool,
                                                  type(None)))
+        if isinstance(got, Abs) and got.attrs.get("__shallow_of__") is v \
+                and vclass not in spec.FLAT_VALUE_CLASSES:
+            # a new container whose elements are the original's mutable
+            # elements (the operations of a CIGAR, the entries of a list)
+            shared = True
         if is_ref:
             ok = isinstance(got, str) and got.startswith("<text:")
             msg = "the value of reference field %s is copied as %r instead " \
